@@ -95,6 +95,25 @@ def table_outcomes(F, rep, q, kind, file_is_stream):
                     % (q, show(n)[:400], show(want_plain)[:300], ext_field, special))
     rep.require(seen == {"absent", "plain", "ext"}, "table-location", q + ":outcomes", w, "absent / plain / extended-numbering outcomes present",
                 "%s lacks outcome classes: has %s" % (q, sorted(seen)))
+    # failure causes: the table is refused only for reasons the header implies (conversion / entry size / overflow / the declared
+    # bytes or shdr[0] not being readable); any other error condition rejects files whose declared table does fit
+    table_ranges = {(off, ADD(off, MUL(ents, plain)))} | {(off, ADD(off, MUL(ents, F_(s0, ext_field)))) for s0 in shdr0_alts}
+    if file_is_stream:
+        table_ranges |= {(shoff, e) for e in ext_alts}
+    bad = []
+    n_fail = 0
+    for cause, t, st in prov.failure_causes(an):
+        n_fail += 1
+        k = cause[0]
+        if k in ("conv", "entsize", "overflow"):
+            continue
+        if k == "parse" and cause[1] == SH:
+            continue
+        if k == "read" and (cause[1], cause[2]) in table_ranges:
+            continue
+        bad.append("%s %s" % (k, [show(x)[:140] if isinstance(x, tuple) else x for x in cause[1:]]))
+    rep.require(not bad, "table-location", q + ":failures", w, "%d failure outcomes, all implied by the header (conversion, entsize, overflow, declared bytes unreadable)" % n_fail,
+                "%s refuses the table under a condition the ELF header does not imply: %s" % (q, "; ".join(bad)[:600]))
 
 
 def _fld(F, adt, name):
